@@ -1,2 +1,20 @@
-From Tramp Require Import Model.Base Model.Sys Props.C04.
-Print Assumptions C04_placeholder.
+From Tramp Require Import Model.Base Model.Fee Model.Classify Model.Node Model.Provider Model.Sys.
+From Tramp Require Import Proofs.SysBasics Proofs.EntryProofs Proofs.SysEntry Proofs.SysShape Proofs.SysTheorems Proofs.SysTimers Proofs.SysReach Props.C04.
+Check C04_initiation : forall c s ev cid a t,
+  reachable c s -> In (OCall cid (QWriteState CreateOrReplace None (DPending a t))) (snd (step c s ev)) ->
+  exists en fq i x am mf md,
+    entry_seen c s ev = Some en /\
+    entry_ (pl (fst (step c s ev))) = Some (set_queues en false fq) /\
+    nth_error (lcs (pl (fst (step c s ev)))) i = Some x /\ l_pc x = PAdd1 cid a am mf md /\
+    md = N.min (clamp16 ((min_expiry (listeners en) - height s) - cltv_delta c)) (pol_delta (pol c)) /\
+    md <= pol_delta (pol c) /\ md <= (min_expiry (listeners en) - height s) - cltv_delta c /\
+    t = now s /\ a = next_att (pl s).
+Check C04_doomed_never_paid : forall c s ev,
+  reachable c s -> Doomed s ->
+  (forall cid q, In (OCall cid q) (snd (step c s ev)) -> is_attempt_start q = false) /\
+  (entry_ (pl (fst (step c s ev))) = None \/ Doomed (fst (step c s ev))).
+Print Assumptions C04_initiation.
+Print Assumptions C04_values_travel.
+Print Assumptions C04_capped_at_pay.
+Print Assumptions C04_low_expiry_rejects.
+Print Assumptions C04_doomed_never_paid.
